@@ -11,6 +11,7 @@ def main(tier):
     segments.line_siblings(P, rep)
     segments.kernel_interpolation(P, rep)
     segments.interpolation_shape(P, rep)
+    rep.attempt(segments.segment_blend, P, rep)      # down-dip blend by the segment fraction; models receive interpolated values
     segments.section_model_loops(P, rep)
     segments.table_provenance(P, rep)
     asserts.input_indexed_elements(P, rep)
